@@ -222,3 +222,14 @@ M("sequool-harmonic-off", "PyXAB/algos/SequOOL.py", "        for i in range(1, n
 M("sequool-skip-last-child", "PyXAB/algos/SequOOL.py", "                    if self.loc == len(max_node.get_children()) - 1:\n                        max_node.open()",
   "                    if self.loc == len(max_node.get_children()) - 1 or (self.curr_depth == 4 and self.loc == 1):\n                        max_node.open()", ["C12"])
 M("sequool-reopen", "PyXAB/algos/SequOOL.py", "        self.opened = True", "        self.opened = self.depth != 2", ["C12"])
+
+# ---- VROOM (C13)
+M("vroom-rank-reversed", "PyXAB/algos/VROOM.py", "rank = sorted(nodes, key=rank_fun, reverse=True)", "rank = sorted(nodes, key=rank_fun, reverse=False)", ["C13"])
+M("vroom-weight-no-h", "PyXAB/algos/VROOM.py", "self.prob.append(1 / (h * node_list[h][l].get_rank()[-1] * self.const))",
+  "self.prob.append((1 / (node_list[h][l].get_rank()[-1] * self.const)) * (self.const / sum(1 / l2 for hh in range(1, self.search_depth + 1) for l2 in range(1, 2 ** hh + 1))))", ["C13"])
+M("vroom-lcb-plus", "PyXAB/algos/VROOM.py", "return node.get_mean_reward() - np.sqrt(", "return node.get_mean_reward() + 3 * np.sqrt(", ["C13"])
+M("vroom-lcb-no-count", "PyXAB/algos/VROOM.py", "np.log(4 * self.n ** 3 / self.delta) / (2 * node.get_eval_time())", "np.log(4 * self.n ** 3 / self.delta) / 2", ["C13"])
+M("vroom-descend-one-short", "PyXAB/algos/VROOM.py", "        while h < self.h_max:\n            if node.get_children() is None:", "        while h < self.h_max - 1:\n            if node.get_children() is None:", ["C13"])
+M("vroom-sample-from-sibling", "PyXAB/algos/VROOM.py", "        return node.sample_uniform()\n\n    def rank", "        return (node.get_parent().get_children()[0] if self.iteration % 7 == 0 else node).sample_uniform()\n\n    def rank", ["C13", "C04"])
+M("vroom-index-shift", "PyXAB/algos/VROOM.py", "        idx = index[sample]\n", "        idx = index[sample if sample % 5 else max(sample - 1, 0)]\n", ["C13"])
+M("vroom-stale-rank", "PyXAB/algos/VROOM.py", "            self.rank(node_list[h])\n", "            if h != 3 or self.iteration < 12:\n                self.rank(node_list[h])\n", ["C13"])
